@@ -25,6 +25,7 @@ func (b c15Block) Bytes() []byte     { return b.bytes }
 // c15Layout draws 0-6 non-empty blocks in the window; overlapping with
 // probability about 1/4.
 func c15Layout(t *rapid.T, win memWindow) (blocks []c15Block, overlap bool) {
+	c15SharedImage = nil
 	n := rapid.IntRange(0, 6).Draw(t, "nblocks")
 	wantOverlap := n >= 2 && rapid.IntRange(0, 3).Draw(t, "overlap") == 0
 	used := make([]bool, win.size)
@@ -72,8 +73,28 @@ func c15Layout(t *rapid.T, win memWindow) (blocks []c15Block, overlap bool) {
 		}
 		blocks = append(blocks, c15Block{begin: win.base + uint64(off), bytes: irsem.GenBytes(t, ln, "bbytes")})
 	}
+	if len(blocks) > 0 && rapid.IntRange(0, 2).Draw(t, "sharedImage") == 0 {
+		// the blocks are slices of one buffer (as sections of a file image are), laid
+		// out in the order they were drawn and followed by spare capacity: whoever
+		// appends to one of them writes into a neighbour
+		total := 0
+		for _, b := range blocks {
+			total += len(b.bytes)
+		}
+		img := make([]byte, 0, total+8)
+		for i := range blocks {
+			at := len(img)
+			img = append(img, blocks[i].bytes...)
+			blocks[i].bytes = img[at:len(img):cap(img)]
+		}
+		c15SharedImage = img
+	}
 	return blocks, overlap
 }
+
+// c15SharedImage is the buffer the blocks of the last layout were cut from (nil
+// if they have buffers of their own).
+var c15SharedImage []byte
 
 func TestC15(t *testing.T) {
 	runWitnesses(t, "C15")
@@ -89,6 +110,7 @@ func TestC15(t *testing.T) {
 		col.Case()
 		win := memWindows[rapid.IntRange(0, len(memWindows)-1).Draw(t, "window")]
 		layout, overlap := c15Layout(t, win)
+		image, imageCopy := c15SharedImage, cloneBytes(c15SharedImage)
 		in := make([]memory.ByteBlock, len(layout))
 		copies := make([][]byte, len(layout))
 		for i, b := range layout {
@@ -99,6 +121,14 @@ func TestC15(t *testing.T) {
 		var err error
 		if msg := catch(func() { mem, err = memory.NewBytes(in) }); msg != "" {
 			t.Fatalf("NewBytes(%v): %s", layout, msg)
+		}
+		if string(image) != string(imageCopy) {
+			t.Fatalf("NewBytes(%v) modified the buffer its blocks were cut from: %x -> %x", layout, imageCopy, image)
+		}
+		for i, b := range layout {
+			if string(b.bytes) != string(copies[i]) {
+				t.Fatalf("NewBytes(%v) modified the bytes of block %d it was given: %x -> %x", layout, i, copies[i], b.bytes)
+			}
 		}
 		if overlap {
 			if err == nil {
